@@ -163,6 +163,11 @@ func (s *Session) auth(o *Config) {
 // Attempt to resume session using stream management
 func (s *Session) resume(o *Config) bool {
 	if !s.Features.DoesStreamManagement() {
+		// The server does not offer stream management on this stream: a session held from an
+		// earlier connection cannot be resumed here and a new one is bound instead. The held
+		// state must not survive that: the stanzas of the new session would be counted into it
+		// and a later <resume/> would present the old id with their count.
+		s.SMState = SMState{}
 		return false
 	}
 	if s.SMState.Id == "" {
